@@ -6,7 +6,7 @@ Open Scope N_scope.
 
 Lemma setl_refc s g g' r l n' :
   GInv s g -> aget (store s) r = Some l ->
-  g_dk g' = g_dk g -> g_lk g' = g_lk g -> g_cl g' = g_cl g -> g_dl g' = g_dl g -> g_cw g' = g_cw g ->
+  g_dk g' = g_dk g -> g_lk g' = g_lk g -> g_pw g' = g_pw g -> g_cl g' = g_cl g -> g_dl g' = g_dl g -> g_cw g' = g_cw g ->
   (forall r0, r0 <> r -> occ r0 (g_xt g') = occ r0 (g_xt g) /\ occ r0 (g_xe g') = occ r0 (g_xe g)
                          /\ occ r0 (g_ph g') = occ r0 (g_ph g)
                          /\ occ r0 (g_owe g') = occ r0 (g_owe g) /\ occ r0 (g_pre g') = occ r0 (g_pre g)
@@ -15,13 +15,13 @@ Lemma setl_refc s g g' r l n' :
    = occ r (holders (getm s (l_key l))) + occ r (m_wq (getm s (l_key l))) + tcount s g' r + ecount s g' r
      + occ r (g_pre g'))%nat ->
   (tcount s g' r <= tcount s g r)%nat -> (ecount s g' r <= ecount s g r)%nat ->
-  (0 < l_locked l -> occ r (g_pre g') = O -> occ r (g_pre g) = O) ->
+  (0 < l_locked l -> occ r (g_pre g') = O -> occ r (holders (getm s (l_key l))) = 1%nat) ->
   (occ r (g_pend g') = O -> occ r (g_pend g) = O) ->
-  (In r (g_ph g') -> l_locked l = 0) ->
-  (occ r (g_ph g') <= occ r (holders (getm s (g_dk g)) ++ m_wq (getm s (g_dk g))))%nat ->
+  (In r (g_ph g') -> (g_pw g = false -> l_locked l = 0) /\ l_timeouted l = true) ->
+  (occ r (g_ph g') <= occ r (phl s g))%nat ->
   GInv (setl s r (l <| l_refc := n' |>)) g'.
 Proof.
-  intros G Hr Hdk Hlk Hcl Hdl Hcw Hoth Hbal Ht He Hpre Hpend Hph Hphle.
+  intros G Hr Hdk Hlk Hpw Hcl Hdl Hcw Hoth Hbal Ht He Hpre Hpend Hph Hphle.
   destruct (gi_rec _ _ G r l Hr) as [A1 A2 A3 A4 A5 A6 A7 A8 A9 A10 A11].
   set (l' := l <| l_refc := n' |>).
   assert (K : l_key l' = l_key l) by (destruct l; reflexivity).
@@ -44,7 +44,7 @@ Proof. intros. unfold add8. apply N.mod_small. auto. Qed.
 Lemma unref_ginv s g g' r l :
   GInv s g -> aget (store s) r = Some l -> 0 < l_refc l -> l_refc l < 256 ->
   (l_refc l = 1 -> l_timeouted l = true /\ occ r (g_owe g') = O) ->
-  g_dk g' = g_dk g -> g_lk g' = g_lk g -> g_cl g' = g_cl g -> g_dl g' = g_dl g -> g_cw g' = g_cw g ->
+  g_dk g' = g_dk g -> g_lk g' = g_lk g -> g_pw g' = g_pw g -> g_cl g' = g_cl g -> g_dl g' = g_dl g -> g_cw g' = g_cw g ->
   (forall r0, r0 <> r -> occ r0 (g_xt g') = occ r0 (g_xt g) /\ occ r0 (g_xe g') = occ r0 (g_xe g)
                          /\ occ r0 (g_ph g') = occ r0 (g_ph g)
                          /\ occ r0 (g_owe g') = occ r0 (g_owe g) /\ occ r0 (g_pre g') = occ r0 (g_pre g)
@@ -53,13 +53,13 @@ Lemma unref_ginv s g g' r l :
    = 1 + occ r (holders (getm s (l_key l))) + occ r (m_wq (getm s (l_key l))) + tcount s g' r + ecount s g' r
      + occ r (g_pre g'))%nat ->
   (tcount s g' r <= tcount s g r)%nat -> (ecount s g' r <= ecount s g r)%nat ->
-  (0 < l_locked l -> occ r (g_pre g') = O -> occ r (g_pre g) = O) ->
+  (0 < l_locked l -> occ r (g_pre g') = O -> occ r (holders (getm s (l_key l))) = 1%nat) ->
   (occ r (g_pend g') = O -> occ r (g_pend g) = O) ->
-  (In r (g_ph g') -> l_locked l = 0) ->
-  (occ r (g_ph g') <= occ r (holders (getm s (g_dk g)) ++ m_wq (getm s (g_dk g))))%nat ->
+  (In r (g_ph g') -> (g_pw g = false -> l_locked l = 0) /\ l_timeouted l = true) ->
+  (occ r (g_ph g') <= occ r (phl s g))%nat ->
   GInv (unref s r) g'.
 Proof.
-  intros G Hr H0 H256 H1 Hdk Hlk Hcl Hdl Hcw Hoth Hbal Ht He Hpre Hpend Hph Hphle.
+  intros G Hr H0 H256 H1 Hdk Hlk Hpw Hcl Hdl Hcw Hoth Hbal Ht He Hpre Hpend Hph Hphle.
   unfold unref. rewrite Hr. rewrite dec8_pred by auto.
   assert (G1 : GInv (setl s r (l <| l_refc := l_refc l - 1 |>)) g').
   { eapply setl_refc; eauto. lia. }
@@ -129,18 +129,20 @@ Qed.
 
 (* a loop over key g_dk's holder / wait list drops the reference of an entry it has popped *)
 Lemma unref_ph s g r l :
-  GInv s g -> aget (store s) r = Some l -> l_key l = g_dk g -> l_locked l = 0 -> l_timeouted l = true ->
+  GInv s g -> aget (store s) r = Some l -> l_key l = g_dk g -> (g_pw g = false -> l_locked l = 0) -> l_timeouted l = true ->
   g_owe g = [] -> occ r (g_pre g) = O ->
-  (occ r (g_ph g) < occ r (holders (getm s (g_dk g)) ++ m_wq (getm s (g_dk g))))%nat ->
+  (occ r (g_ph g) < occ r (phl s g))%nat ->
   GInv (unref s r) (g <| g_ph := r :: g_ph g |>).
 Proof.
   intros G Hr Hk Hl Ht Ho Hq Hlt.
   destruct (rec_counts s g r l G Hr) as [[C1 [C2 [C3 C4]]] _].
   destruct (gi_rec _ _ G r l Hr) as [A1 A2 A3 A4 A5 A6 A7 A8 A9 A10 A11].
-  rewrite occ_app in Hlt. rewrite Hk in *. rewrite Ho in *. simpl occ in A3.
+  unfold phl in Hlt. rewrite <- Hk in Hlt. rewrite Ho in *. simpl occ in A3.
+  assert (Hlt' : (occ r (g_ph g) < occ r (holders (getm s (l_key l))) + occ r (m_wq (getm s (l_key l))))%nat) by (destruct (g_pw g); lia).
   eapply unref_ginv; eauto; gs; change (tcount s (g <| g_ph := r :: g_ph g |>) r) with (tcount s g r);
-    change (ecount s (g <| g_ph := r :: g_ph g |>) r) with (ecount s g r); rewrite ?Ho, ?Hk, ?occ_cons_eq, ?occ_app; simpl occ; try lia.
-  occ_others.
+    change (ecount s (g <| g_ph := r :: g_ph g |>) r) with (ecount s g r); rewrite ?Ho, ?occ_cons_eq, ?occ_app; simpl occ; try lia.
+  - occ_others.
+  - unfold phl. rewrite <- Hk. lia.
 Qed.
 
 (* ---------------------------------------------------------------- timeouted / long / deadline fields *)
@@ -154,9 +156,10 @@ Lemma setl_flags s g r l l' :
   (l_long l' = true -> occ r (g_pend g) = O ->
      (l_timeouted l' = false -> occ r (wheel_get (tlong s) (lkey (l_tT l'))) = 1%nat)
      /\ (l_timeouted l' = true -> occ r (wheel_get (elong s) (lkey (l_eT l'))) = 1%nat)) ->
+  (In r (g_ph g) -> l_timeouted l' = true) ->
   GInv (setl s r l') (g <| g_cw := (g_cw g + liveb l' - liveb l)%Z |>).
 Proof.
-  intros G Hr K R D A C CC Hlive Hlong.
+  intros G Hr K R D A C CC Hlive Hlong Hpt.
   destruct (gi_rec _ _ G r l Hr) as [A1 A2 A3 A4 A5 A6 A7 A8 A9 A10 A11].
   eapply setl_ginv; eauto; gs; auto.
   - intros. repeat split; auto.
@@ -166,7 +169,7 @@ Proof.
       rewrite ?K, ?R, ?D, ?A; auto.
   - rewrite D. destruct (l_key l =? g_dk g); lia.
   - rewrite D, C. auto.
-  - rewrite D. intros Hi. pose proof (gi_ph _ _ G r Hi) as Z. rewrite (getl_some _ _ _ Hr) in Z. auto.
+  - rewrite D. intros Hi. pose proof (gi_ph _ _ G r Hi) as [Z _]. rewrite (getl_some _ _ _ Hr) in Z. auto.
   - apply (gi_phle _ _ G).
 Qed.
 
@@ -196,6 +199,7 @@ Proof.
   - rewrite Hk, N.eqb_refl. lia.
   - rewrite Hk, N.eqb_refl. discriminate.
   - unfold lkk. rewrite Hk, N.eqb_refl. simpl. intros Hl Hp. split; auto.
+  - intros Hi. split; auto. rewrite T. destruct (gi_ph _ _ G r Hi) as [_ Z]. rewrite (getl_some _ _ _ Hr) in Z. auto.
   - apply (gi_phle _ _ G).
   - unfold liveb. rewrite T. lia.
 Qed.
